@@ -150,18 +150,18 @@ pub fn spec() -> Spec {
     )
     .assume("oracle: plain BTreeMap model; the order in which list_partition_keys yields partitions is not part of the property")
     .assume("keys fed to the Merkle store respect the Jellyfish precondition (prefix-free within a tree)")
-    .floor("evaluations", 5_000)
-    .floor("distinct_nontrivial", 2_000)
-    .floor("observations:rocksdb-store", 2_000)
-    .floor("observations:rocksdb-merkle-store", 1_200)
-    .floor("partition_sets_compared", 5_000)
-    .floor("listings_compared", 500_000)
-    .floor("reopens", 100)
-    .floor("universes_with_entity_keys_of_different_lengths", 20)
-    .floor("wdb:reset:empty_on_present", 100)
+    .floor("evaluations", 2_500)
+    .floor("distinct_nontrivial", 900)
+    .floor("observations:rocksdb-store", 900)
+    .floor("observations:rocksdb-merkle-store", 500)
+    .floor("partition_sets_compared", 2_500)
+    .floor("listings_compared", 250_000)
+    .floor("reopens", 40)
+    .floor("universes_with_entity_keys_of_different_lengths", 10)
+    .floor("wdb:reset:empty_on_present", 60)
     .floor("wdb:reset:nonempty_on_present", 150)
     .floor("wdb:partition_emptied_by_delta", 100)
-    .floor("wdb:entity_deleted", 80)
+    .floor("wdb:entity_deleted", 50)
 }
 
 pub fn run(args: &Args) -> i32 {
